@@ -21,6 +21,7 @@ import OapiVerif.Model.SchemaOrder
 import OapiVerif.Model.Comment
 import OapiVerif.Model.RefPath
 import OapiVerif.Model.Form
+import OapiVerif.Model.TypeDedup
 /-!
 Line-protocol driver: one JSON object per line in, one per line out.
 `{"fn": <name>, ...}` ↦ `{"ok": <result>}` or `{"err": "bad-op"}` (never a default).
@@ -364,6 +365,21 @@ def combineParamsD (j : Json) : Except String Json := do
     | .ok r => Json.mkObj [("ok", Json.arr (r.map fun d => Json.num d.tag).toArray)]
     | .error e => Json.mkObj [("error", e)])
 
+/-- `GenerateTypes`: definitions as [body, name bytes…]; result = bodies in order, or the name the error carries. -/
+def genTypesD (j : Json) : Except String Json := do
+  let a ← j.getObjValAs? (Array (Array Nat)) "types"
+  let ts : List TypeDedup.TD := a.toList.map fun r => ⟨r.toList.drop 1, r[0]!⟩
+  pure (match TypeDedup.generateTypes ts with
+    | .ok r => Json.mkObj [("ok", Json.arr (r.map fun d => Json.num d.body).toArray)]
+    | .error e => Json.mkObj [("error", Json.arr (e.map fun (c : Nat) => Json.num (JsonNumber.fromNat c)).toArray)])
+
+/-- `constructImportMapping`: [[document bytes, package path bytes]] ↦ [[document, name, path]] -/
+def importMapD (j : Json) : Except String Json := do
+  let a ← j.getObjValAs? (Array (Array (Array Nat))) "mapping"
+  let m : List (TypeDedup.Str × TypeDedup.Str) := a.toList.map fun r => (r[0]!.toList, r[1]!.toList)
+  let nums (l : List Nat) : Json := Json.arr (l.map fun (c : Nat) => Json.num (JsonNumber.fromNat c)).toArray
+  pure (Json.arr ((TypeDedup.construct m).map fun (d, n, p) => Json.arr #[nums d, nums n, nums p]).toArray)
+
 /-- `stringToGoCommentWithPrefix`: input and prefix as code point arrays; result = code points, and the line check. -/
 def commentD (j : Json) : Except String Json := do
   let i ← j.getObjValAs? (Array Nat) "in"
@@ -640,6 +656,8 @@ def dispatch (fn : String) (j : Json) : Except String Json :=
   | "enumNames" => enumNamesD j
   | "enumFlags" => enumFlagsD j
   | "combineParams" => combineParamsD j
+  | "genTypes" => genTypesD j
+  | "importMap" => importMapD j
   | "schemaKeys" => schemaKeysD j
   | "comment" => commentD j
   | "commentSpaces" => commentSpacesD j
